@@ -23,7 +23,7 @@ ASSUMPTIONS = ["Django's sql_with_params() and SQLAlchemy's compile() report the
                "booleans and null are SQL keywords, not values (excluded by the property)"]
 
 STRS = ["x", "' OR 1=1 --", "%_\\;/*", "a\"b'c"]
-INTS = ["0", "-1", "9223372036854775807", "42"]
+INTS = ["0", "-1", "9223372036854775808", "100000000000000000042"]   # incl. values beyond the signed 64-bit range
 FLTS = ["0.5", "-1.5", "1e3", "123456.789"]
 DTS = ["2020-02-29T23:59:59Z", "1999-12-31T00:00:00Z", "2001-01-01T01:02:03Z", "2077-07-07T07:07:07Z"]
 DATES = ["2020-02-29", "1999-12-31", "2001-01-01", "2077-07-07"]
@@ -133,7 +133,8 @@ def compile_sa(text, cols, variant):
         stmt = apply_odata_query(_SES.query(M), text).statement
     else:
         stmt = apply_odata_core(sa.select(M.__table__), text)
-    c = stmt.compile(dialect=sa_sqlite.dialect())
+    # render_postcompile: the text as it reaches the driver (expanding IN lists and anything marked literal_execute)
+    c = stmt.compile(dialect=sa_sqlite.dialect(), compile_kwargs={"render_postcompile": True})
     return c.string, list(c.params.values())
 
 
